@@ -83,6 +83,22 @@ let init () =
           | Err _ -> "err"
           | Panic -> "panic"))
     | _ -> "bad-args");
+  (* bseqrt <T> <dialect> <ver1>:<hex1> ... : the model has no receiver, so the answer for a reused receiver is the
+     answer for the LAST body alone (what the implementation is required to give) *)
+  register "bseqrt" (fun args -> match args with
+    | name :: dial :: (_ :: _ as bodies) ->
+      let last = Stdlib.List.nth bodies (Stdlib.List.length bodies - 1) in
+      (match String.split_on_char ':' last with
+       | [ver; h] ->
+         (match lookup name ver dial [] with
+          | None -> "not-in-model"
+          | Some m ->
+            (match m.m_dec (bytes_of_hex h) with
+             | Ok v -> "ok " ^ show_val v ^ " enc=" ^ hex_of_bytes (m.m_enc v)
+             | Err _ -> "err"
+             | Panic -> "panic"))
+       | _ -> "bad-args")
+    | _ -> "bad-args");
   (* bparse <T> <ver> <dialect> <hex> [g=..] : parse and dump only *)
   register "bparse" (fun args -> match args with
     | name :: ver :: dial :: h :: rest ->
